@@ -89,6 +89,18 @@ def check_listing(rng, V, n_files, hist):
             except Exception:
                 ok = False
         hist["listing-files"] += 1
+        # correspondence with the listing model (Model/Listing.v): the rows of the binary's output against the model's text;
+        # a different layout alone is not a violation as long as the listing still determines the commands (read back above)
+        mt = C.run_model(["listing %s %s" % (",".join(str(ord(c)) for c in "t%d.hyeong" % i), ",".join(str(ord(c)) for c in text))])[0]
+        if mt.startswith("ok:"):
+            model_rows = "".join(chr(int(x)) for x in mt[3:].split(".")) if mt[3:] else ""
+            real_rows = "".join(l + "\n" for l in out if " | " in l)
+            hist["listing-model-agrees" if model_rows == real_rows else "listing-layout-differs-from-model"] += 1
+        else:
+            hist["listing-model-" + mt[:12]] += 1
+            if ok and got == want:
+                V.violation("correspondence:listing", "the listing model (coq/Model/Listing.v) answers %r on %r while `hyeong check` prints a listing" % (mt, text),
+                            dict(correspondence="L0 app/check.rs print_un_opt_codes vs L1 coq/Model/Listing.v", file_text=text, model=mt), found_input=False)
         if not ok or got != want:
             bad += 1
             V.violation("listing:" + classify_listing(got, want), "`hyeong check` listing of %r does not determine the parsed commands: read back %r, parsed %r"
